@@ -55,10 +55,10 @@ theorem wb_timeout_module_exact (t dw : Nat) (xs : List Wb.TIn) (x : Wb.TIn) :
   have h := Wb.timeout_runFrom_spec t dw xs t 0 (by simp)
   show Wb.tOut dw ((Wb.timeout t dw).runFrom t xs) x = _
   rw [h]
-  simp only [Wb.tOut, WaitTimer.done, WaitTimer.streak, beq_iff_eq]
-  by_cases hk : t ≤ WaitTimer.streakFrom 0 (Wb.tWaits t dw t xs)
-  · rw [if_pos hk, if_pos (by omega)]
-  · rw [if_neg hk, if_neg (by omega)]
+  unfold WaitTimer.streak
+  have hiff : (t - min t (WaitTimer.streakFrom 0 (Wb.tWaits t dw t xs)) = 0) ↔
+      t ≤ WaitTimer.streakFrom 0 (Wb.tWaits t dw t xs) := by omega
+  simp only [Wb.tOut, WaitTimer.done, beq_iff_eq, hiff]
 
 /-! ## Wishbone: `InterconnectShared` with `timeout_cycles = t` -/
 
@@ -83,12 +83,13 @@ theorem wb_timeout_exact (ht : c.t = some t) (xs : List BusIn) (x : BusIn) :
   intro s o
   have hc : s.count = t - min t (waited c xs) := run_count_spec c ht xs
   have hle : waited c xs ≤ t := by
-    induction xs using List.reverseRecOn with
+    clear hc
+    induction xs using snoc_induction with
     | nil => simp [waited, waits, WaitTimer.streak, WaitTimer.streakFrom]
-    | append_singleton ys y ih =>
+    | snoc ys y ih =>
       rw [waited_step]
       have hc' := run_count_spec c ht ys
-      have ih' := ih hc'
+      have ih' := ih
       by_cases hlt : waited c ys < t
       · cases ownerWaits c ((machine c).run ys) y <;> simp [WaitTimer.streakStep] <;> omega
       · have heq : waited c ys = t := by omega
@@ -178,9 +179,9 @@ theorem wb_waited_scenario (ht : c.t = some t) (hn : 0 < c.n) (xs : List BusIn) 
                       (y.ms ((machine c).run xs).grant).stb = true ∧ slavesAck c y = false) :
     waited c (xs ++ ys) = ys.length ∧
     ((machine c).run (xs ++ ys)).grant = ((machine c).run xs).grant := by
-  induction ys using List.reverseRecOn with
+  induction ys using snoc_induction with
   | nil => simpa using hw
-  | append_singleton zs z ih =>
+  | snoc zs z ih =>
     have hlen' : zs.length < t := by simp at hlen; omega
     have ih' := ih (by omega) (fun y hy => hreq y (by simp [hy]))
     have hz := hreq z (by simp)
@@ -190,11 +191,12 @@ theorem wb_waited_scenario (ht : c.t = some t) (hn : 0 < c.n) (xs : List BusIn) 
     have hack : ((out c ((machine c).run (xs ++ zs)) z).toM ((machine c).run (xs ++ zs)).grant).ack = false := by
       rw [hex.2.2.2 (by omega)]; exact hz.2.2
     have hwait : ownerWaits c ((machine c).run (xs ++ zs)) z = true := by
-      simp only [ownerWaits, hack, ih'.2, hz.1, hz.2.1]; rfl
+      rw [ih'.2] at hack
+      simp [ownerWaits, hack, ih'.2, hz.1, hz.2.1]
     refine ⟨?_, ?_⟩
     · rw [← List.append_assoc, waited_step, hwait, ih'.1]; simp [WaitTimer.streakStep]
     · rw [hrun]
-      show RoundRobin.next .withdraw c.n _ _ _ = _
+      simp only [Shared.next]
       rw [RoundRobin.next_withdraw_keep _ _ (grant_lt c hn _) (by rw [ih'.2]; exact hz.1), ih'.2]
 
 /-- **Exact latency.**  A request of the bus owner that no slave answers is left alone for `t` cycles
@@ -250,9 +252,7 @@ theorem wb_crossbar_silent_slave_hangs (c : Wb.Cfg) (s : XState) (x : BusIn)
     ((Crossbar.out c s x).toM i).ack = false ∧ (Crossbar.out c s x).error = false := by
   refine ⟨?_, rfl⟩
   show orAll c.k _ = false
-  induction c.k with
-  | zero => rfl
-  | succ k ih => simp [orAll, ih, hsil]
+  exact orAll_false (fun j => by simp [hsil])
 
 /-- The same as a statement about whole runs: from reset, under any request pattern, as long as the slaves stay
     silent no cycle of the trace carries an `ack` for anybody. -/
